@@ -265,4 +265,54 @@ def r4u_name_wildcard_loop_var(text, log):
         log["R4u wildcard-loop-var named"] = log.get("R4u wildcard-loop-var named", 0) + 1
 
 
-RULES = {"R9": r9_closure_inline, "R4u": r4u_name_wildcard_loop_var}
+def r4t_iter_take(text, log):
+    """`for &x in E.iter().take(N) { B }`  ->  `for vx_tkK in 0..(N).min(E.len()) { let x = E[vx_tkK]; B }`
+       `for  x in E.iter().take(N) { B }`  ->  `for vx_tkK in 0..(N).min(E.len()) { let x = &E[vx_tkK]; B }`
+    (DESIGN R4(e)).  Definitional for slices/arrays/Vec: `iter().take(N)` yields the first min(N, len) elements in order.
+    Only applied when E is a plain place path (identifiers joined by `.`), so evaluating it repeatedly is pure and `E`
+    is immutably borrowed for the whole loop in the original; N is evaluated once in both forms."""
+    k = 0
+    while True:
+        st = sig(lex(text))
+        hit = None
+        for i, t in enumerate(st):
+            if not (t.kind == "ident" and t.text == "for"):
+                continue
+            j = i + 1
+            deref = False
+            if st[j].text == "&":
+                deref = True
+                j += 1
+            if st[j].kind != "ident" or st[j + 1].text != "in":
+                continue
+            x = st[j].text
+            e0 = j + 2
+            e1 = e0
+            ok = st[e1].kind == "ident"
+            while ok and st[e1 + 1].text == "." and st[e1 + 2].kind == "ident" and st[e1 + 3].text != "(":
+                e1 += 2
+            if not ok:
+                continue
+            if [y.text for y in st[e1 + 1:e1 + 8]] != [".", "iter", "(", ")", ".", "take", "("]:
+                continue
+            o = e1 + 7
+            c = match_close(st, o)
+            if st[c + 1].text != "{":
+                continue
+            hit = (i, x, deref, e0, e1, o, c)
+            break
+        if hit is None:
+            return text
+        i, x, deref, e0, e1, o, c = hit
+        k += 1
+        iv = "vx_tk%d" % k
+        if any(t.kind == "ident" and t.text == iv for t in st):
+            raise RewriteError("R4t: identifier %s already occurs" % iv)
+        e_txt = text[st[e0].start:st[e1].end]
+        n_txt = text[st[o].end:st[c].start]
+        head = "for %s in 0..(%s).min(%s.len()) { let %s = %s%s[%s];" % (iv, n_txt.strip(), e_txt, x, "" if deref else "&", e_txt, iv)
+        text = text[:st[i].start] + head + text[st[c + 1].end:]
+        log["R4t iter().take(n) -> index loop"] = log.get("R4t iter().take(n) -> index loop", 0) + 1
+
+
+RULES = {"R9": r9_closure_inline, "R4u": r4u_name_wildcard_loop_var, "R4t": r4t_iter_take}
